@@ -135,9 +135,11 @@ pub fn monogamous(p: &Plain) -> bool {
 /// dense small multigraph-like diagrams: few nodes, several operations, repeated incidences,
 /// parallel dependencies of multiplicity up to 5-6, self-dependence, zero arity
 pub fn gen_dense(r: &mut Rng, big: bool) -> Plain {
-    let n = r.range(1, if big { 7 } else { 5 });
-    let m = r.range(0, if big { 7 } else { 5 });
-    let max_ar = r.range(1, if big { 6 } else { 4 });
+    // unusually large instances at a low rate
+    let huge = r.chance(1, if big { 20 } else { 150 });
+    let n = if huge { r.range(8, 40) } else { r.range(1, if big { 7 } else { 5 }) };
+    let m = if huge { r.range(6, 24) } else { r.range(0, if big { 7 } else { 5 }) };
+    let max_ar = r.range(1, if big || huge { 6 } else { 4 });
     let labels = r.range(1, 3);
     let w: Vec<L> = (0..n).map(|_| r.below(labels) as L).collect();
     let mut e = vec![];
@@ -168,7 +170,8 @@ pub fn gen_dense(r: &mut Rng, big: bool) -> Plain {
 /// parallel wires), then optionally one back connection (a cycle with a tail downstream), then a
 /// random renumbering of nodes and operations
 pub fn gen_layered(r: &mut Rng, big: bool) -> Plain {
-    let m = r.range(0, if big { 8 } else { 5 });
+    let huge = r.chance(1, if big { 20 } else { 150 });
+    let m = if huge { r.range(8, 30) } else { r.range(0, if big { 8 } else { 5 }) };
     let mut w: Vec<L> = vec![];
     let mut used_as_source: Vec<bool> = vec![];
     let mut e = vec![];
